@@ -72,6 +72,8 @@ def sweep_ops(rng, mtu, lengths, h=H_RW):
         ops.append(["write", h, v.hex()])
         ops.append(["read_long", h])
         ops.append(["read", h])
+        if n % 2 == 0 or n < 4:
+            ops.append(["read_blob", h, n])                  # offset == length: empty blob
         if n % 5 == 0:
             ops.append(["read_blob", h, max(0, n - (n % 7))])
     return ops
@@ -97,6 +99,8 @@ def random_ops(rng, n_ops, mtu=None):
         elif k < 0.74:
             h = rng.choice(valh + [H_RO, H_DESC40, H_CCCD, H_DECL, H_SVC])
             ops.append(["read_blob", h, rng.choice([0, 1, mtu - 2, mtu - 1, mtu, 2 * (mtu - 1), rng.randrange(0, 600)])])
+            if rng.random() < 0.3:
+                ops.append(["read_blob", H_RO, 30])          # exactly the length of the read-only value
         elif k < 0.80:
             # write command to a writable characteristic value (no answer expected)
             ops.append(["write_command", rng.choice([H_RW, H_RW2, H_WNR, H_WO]), val(rng, rng.choice([0, 1, 5, mtu - 3, mtu - 2, 60])).hex()])
@@ -120,8 +124,11 @@ def random_ops(rng, n_ops, mtu=None):
             ops.append(["set_mtu", rng.choice(MTUS + [rng.randrange(23, 518), 22, 5])])
             if ops[-1][1] >= 23:
                 mtu = ops[-1][1]
-        else:
+        elif k < 0.985:
             ops.append(["write_long", rng.choice([H_RW, H_RW2]), val(rng, rng.randrange(0, 40)).hex()])
+        else:
+            # long path to a characteristic that is not writable: refused when executed
+            ops.append([rng.choice(["write", "write_long"]), H_RO, val(rng, rng.choice([0, 1, mtu - 2, 60])).hex()])
     return ops
 
 
